@@ -182,6 +182,46 @@ class Lattice:
             tgt = tgt.rpartition(".")[0]
         return self.db.modules.get(tgt, m)
 
+    def instance_attrs(self, name: str) -> set[str] | None:
+        """Attribute names every instance of exception class `name` has: class attributes / descriptors (dir) plus, for classes
+        written in Python, attributes assigned to `self` in __init__ along the MRO (read from source, nothing is executed).
+        None = unknown class."""
+        import inspect
+        name = ALIASES.get(name, name)
+        if name in self.db.classes or (name.startswith("easynetwork") and isinstance(self.db.lookup(name), ClassInfo)):
+            ci = self.db.classes.get(name) or self.db.lookup(name)
+            out: set[str] = set(dir(Exception))
+            for c in ci.mro():
+                out |= set(c.methods) | set(c.fields) | set(c.field_values)
+                init = c.methods.get("__init__")
+                if init is not None:
+                    for n in ast.walk(init.node):
+                        if isinstance(n, ast.Attribute) and isinstance(n.ctx, ast.Store) and dotted(n.value) == init.self_name:
+                            out.add(n.attr)
+                for e in c.external_bases:
+                    sub = self.instance_attrs(e)
+                    if sub:
+                        out |= sub
+            return out
+        cls = self._import_class(name)
+        if cls is None or not isinstance(cls, type):
+            return None
+        out = set(dir(cls))
+        for c in cls.__mro__:
+            init = c.__dict__.get("__init__")
+            if init is None or not hasattr(init, "__code__"):
+                continue
+            try:
+                tree = ast.parse(inspect.cleandoc("\n" + inspect.getsource(init)) if False else __import__("textwrap").dedent(inspect.getsource(init)))
+            except (OSError, TypeError, SyntaxError):
+                continue
+            fn = tree.body[0]
+            selfn = fn.args.args[0].arg if fn.args.args else "self"
+            for n in ast.walk(fn):
+                if isinstance(n, ast.Attribute) and isinstance(n.ctx, ast.Store) and isinstance(n.value, ast.Name) and n.value.id == selfn:
+                    out.add(n.attr)
+        return out
+
     def dead_handlers(self, fn: FunctionInfo, try_node: ast.Try) -> list[tuple[ast.ExceptHandler, ast.ExceptHandler]]:
         """(arm, earlier arm that catches everything it names): Python picks the first matching arm, so the later one never runs."""
         out = []
